@@ -27,7 +27,7 @@ ASSUMPTIONS = ['two self-signatures made in the same second: either may count as
                'parameters of a revoked identity are not compared']
 MIN_COUNTERS = {'quick': {'histories': 600, 'steps_checked': 1200, 'selfsigs_verified_by_reference': 3000, 'effective_params_compared': 2500, 'reimports': 1200},
                 'thorough': {'histories': 6000}}
-BUDGET = {'quick': (280, 800), 'thorough': (2400, 3600)}
+BUDGET = {'quick': (600, 1500), 'thorough': (2400, 3600)}
 TECHNIQUE = 'runtime monitoring: history monitor against a sequential certificate model + reference verification of every export; bounded-exhaustive short histories + random deep walks'
 
 ALPHA = ['add_uid', 'add_subkey', 'recertify', 'third_party', 'revoke_uid', 'revoke_subkey', 'revoke_key', 'del_uid', 'add_revoker']
